@@ -302,4 +302,85 @@ theorem embed_exact : EmbedExact α A := by
   rw [hleft, hright, hent _ _ hsr hsc]
   ring
 
+
+/-! ## an embedded unitary is unitary -/
+
+theorem get_adjoint {n : Nat} {M : LMat α} (hM : WF n n M) {i j : Nat} (hi : i < n) (hj : j < n) :
+    LMat.get (adjoint A M) i j = Amp.conj A (LMat.get M j i) := by
+  unfold adjoint
+  rw [hM.1, get_transpose (wf_mapEntries _ hM) hi hj, get_mapEntries _ hM hj hi]
+
+theorem embed_unitary (h : LawfulAmp α A) (n : Nat) (bits : List Nat) (hv : validBits n bits = true)
+    (M : LMat α) (hU : IsUnitary A bits.length M) : IsUnitary A n (embed n bits M) := by
+  obtain ⟨hM1, hM2, hMU⟩ := hU
+  have hM : WF (2 ^ bits.length) (2 ^ bits.length) M := ⟨hM1, hM2⟩
+  have hE : WF (2 ^ n) (2 ^ n) (embed n bits M) := embed_wf n bits M
+  have hN : 0 < 2 ^ n := Nat.pow_pos (by decide)
+  have hK : 0 < 2 ^ bits.length := Nat.pow_pos (by decide)
+  refine ⟨hE.1, hE.2, ?_⟩
+  apply ext_get (wf_mul hE (wf_adjoint hE) hN) (wf_identity _)
+  intro r hr c hc
+  rw [Route.get_mul (2 ^ n) _ _ hE (wf_adjoint hE) r c hr hc, Route.get_identity (2 ^ n) r c hr hc]
+  have hsr := subIndex_lt n bits r
+  have hsc := subIndex_lt n bits c
+  have hrest : ∀ x, subIndex n (others n bits) x < 2 ^ (n - bits.length) := by
+    intro x
+    have := subIndex_lt n (others n bits) x
+    rwa [others_length n bits hv] at this
+  -- entries of `M · Mᴴ`
+  have hMM : ∀ i j, i < 2 ^ bits.length → j < 2 ^ bits.length →
+      ∑ a ∈ Finset.range (2 ^ bits.length), LMat.get M i a * Amp.conj A (LMat.get M j a) =
+        if i = j then 1 else 0 := by
+    intro i j hi hj
+    have := congrArg (fun X => LMat.get X i j) hMU
+    beta_reduce at this
+    rw [Route.get_mul (2 ^ bits.length) _ _ hM (wf_adjoint hM) i j hi hj,
+      Route.get_identity (2 ^ bits.length) i j hi hj] at this
+    rw [← this]
+    apply Finset.sum_congr rfl
+    intro a ha
+    rw [get_adjoint hM (Finset.mem_range.1 ha) hj]
+  obtain ⟨F, hF⟩ : ∃ F : Nat → Nat → α, F = fun a t =>
+      (if subIndex n (others n bits) r = t then LMat.get M (subIndex n bits r) a else 0) *
+        Amp.conj A (if subIndex n (others n bits) c = t then LMat.get M (subIndex n bits c) a else 0) := ⟨_, rfl⟩
+  have e1 : ∀ m ∈ Finset.range (2 ^ n),
+      LMat.get (embed n bits M) r m * LMat.get (adjoint A (embed n bits M)) m c =
+      F (subIndex n bits m) (subIndex n (others n bits) m) := by
+    intro m hm
+    have hm' := Finset.mem_range.1 hm
+    rw [get_adjoint hE hm' hc, embed_get n bits M r m hr hm', embed_get n bits M c m hc hm', hF]
+    simp only [agreeOff_iff']
+  rw [Finset.sum_congr rfl e1, sum_gather' n bits hv F]
+  subst hF
+  beta_reduce
+  by_cases hrc : subIndex n (others n bits) r = subIndex n (others n bits) c
+  · have e2 : ∀ a ∈ Finset.range (2 ^ bits.length),
+        (∑ t ∈ Finset.range (2 ^ (n - bits.length)),
+          (if subIndex n (others n bits) r = t then LMat.get M (subIndex n bits r) a else 0) *
+            Amp.conj A (if subIndex n (others n bits) c = t then LMat.get M (subIndex n bits c) a else 0)) =
+        LMat.get M (subIndex n bits r) a * Amp.conj A (LMat.get M (subIndex n bits c) a) := by
+      intro a _
+      rw [Finset.sum_eq_single (subIndex n (others n bits) r)]
+      · rw [if_pos rfl, if_pos hrc.symm]
+      · intro t _ hne
+        rw [if_neg (Ne.symm hne), zero_mul]
+      · intro hh; exact absurd (Finset.mem_range.2 (hrest r)) hh
+    rw [Finset.sum_congr rfl e2, hMM _ _ hsr hsc]
+    by_cases hsub : subIndex n bits r = subIndex n bits c
+    · have : r = c := gatherIndex_inj n bits hv r c hr hc (by
+        rw [gatherIndex_eq n bits r hv, gatherIndex_eq n bits c hv, hsub, hrc])
+      rw [if_pos hsub, if_pos this]
+    · have : r ≠ c := fun e => hsub (by rw [e])
+      rw [if_neg hsub, if_neg this]
+  · have hne : r ≠ c := fun e => hrc (by rw [e])
+    rw [if_neg hne]
+    apply Finset.sum_eq_zero
+    intro a _
+    apply Finset.sum_eq_zero
+    intro t _
+    by_cases ht : subIndex n (others n bits) r = t
+    · have : ¬ subIndex n (others n bits) c = t := fun e => hrc (by rw [ht, e])
+      rw [if_neg this, h.conj_zero, mul_zero]
+    · rw [if_neg ht, zero_mul]
+
 end Q1t.Proofs.ConjEmbed
